@@ -131,6 +131,9 @@ func urlMenu() []qParam {
 		`%7B%22o%22%3A%22and%22%2C%22v%22%3A5%7D`, "lab%22el", "%5B1%5D", "a%20b", "a%26b",
 		// operators in other letter cases are ordinary (unknown) operators, not and/or
 		`%7B%22o%22%3A%22AND%22%2C%22v%22%3A%5B%7B%22f%22%3A%22x%22%2C%22o%22%3A%22%3D%22%2C%22v%22%3A%22a%22%7D%5D%7D`, `%7B%22o%22%3A%22Or%22%2C%22v%22%3A%5B%7B%22f%22%3A%22x%22%2C%22o%22%3A%22%3D%22%2C%22v%22%3A%22a%22%7D%2C%7B%22o%22%3A%22aNd%22%2C%22v%22%3A%5B%5D%7D%5D%7D`, `%7B%22f%22%3A%22x%22%2C%22o%22%3A%22%3D%22%2C%22v%22%3A%22a%22%2C%22c%22%3A%22X%22%7D`)
+	// and / or groups with null, scalar or ill-shaped children
+	add("filter", `%7B%22o%22%3A%22and%22%2C%22v%22%3A%5Bnull%5D%7D`, `%7B%22o%22%3A%22or%22%2C%22v%22%3A%5B%7B%22o%22%3A%22and%22%2C%22v%22%3A%5Bnull%2C5%5D%7D%5D%7D`, `%7B%22o%22%3A%22and%22%2C%22v%22%3Anull%7D`, `null`, `%7B%22o%22%3A%22or%22%2C%22v%22%3A%5B%5B%5D%5D%7D`)
+	add("include", ".", "r..s", ".r", "r.s.", "..")
 	add("unknown", "1")
 	add("fields[a", "x")
 	add("sort", "%zz")
